@@ -70,12 +70,72 @@ def job(forests):
     return t
 
 
+def run_primed(t, kind, n, witness, primed, ops, y, z):
+    """rebuild a reachable forest; ask only the primed nodes for path / walk; mutate; then walk(y, z) in isolation."""
+    import anytree
+    from .. import forest
+
+    u = forest.rebuild(kind, n, witness)
+    u.arm()
+    w = anytree.Walker()
+    for lbl in primed:
+        nd = u.nodes[lbl]
+        nd.path
+        w.walk(nd, nd.root)
+        repr(nd)
+    for op in ops:
+        try:
+            u.apply(op)
+        except Exception:  # noqa
+            t.c["refused_ops"] += 1
+    nodes = [u.nodes[l] for l in u.labels]
+    idm = tree.IdMap(nodes)
+    yi, zi = u.labels.index(y), u.labels.index(z)
+    try:
+        up, common, down = w.walk(nodes[yi], nodes[zi])
+        got = (idm.seq(up), idm(common), idm.seq(down))
+    except anytree.WalkError:
+        got = "WalkError"
+    m = tree.Model.from_state(u.state(), u.labels)
+    exp = expected(m, yi, zi)
+    t.c["evaluations"] += 1
+    t.c["primed_histories"] += 1
+    if primed and yi != zi:
+        t.c["nontrivial"] += 1
+    if got != exp:
+        t.violation("C15: walk(%s,%s) is wrong after a partially queried mutation history" % (y, z),
+                    {"engine": "E2", "module": MOD, "part": "primed", "kind": kind, "n": n, "witness": [list(x) for x in witness],
+                     "primed": list(primed), "history": [list(o) for o in ops], "start": y, "end": z, "expected": exp, "observed": got})
+
+
+def job_primed(kind, n, states):
+    from .. import forest
+
+    t = core.Tally()
+    labels = list(forest.LABELS[:n])
+    ops = [("setp", x, p) for x in labels for p in [None] + labels] + [("delc", x) for x in labels]
+    for key, state, witness in states:
+        t.c["states"] += 1
+        for primed in core.powerset(labels):
+            for op in ops:
+                for y in labels:
+                    for z in labels:
+                        core.guard(t, "C15", {"engine": "E2", "module": MOD, "part": "primed", "kind": kind, "n": n,
+                                              "witness": [list(x) for x in witness], "primed": list(primed), "history": [list(op)],
+                                              "start": y, "end": z}, run_primed, t, kind, n, witness, primed, (op,), y, z)
+        t.obs((kind, key, "primed", t.c["evaluations"]))
+    return t
+
+
 def _tup(x):
     return tuple(_tup(i) for i in x) if isinstance(x, list) else x
 
 
 def replay(c):
     t = core.Tally()
+    if c.get("part") == "primed":
+        run_primed(t, c["kind"], c["n"], _tup(c["witness"]), tuple(c["primed"]), _tup(c["history"]), c["start"], c["end"])
+        return [v["why"] for v in t.violations]
     check_forest(t, _tup(c["forest"]), (c["kind"],))
     return [v["why"] for v in t.violations]
 
@@ -89,13 +149,26 @@ def run(tier):
     t = core.Tally()
     core.run_pool([(MOD, "job", {"forests": c}) for c in core.chunks(items[::-1], core.NPROC * 6)], 0, into=t)
     core.run_pool([(MOD, "job", {"forests": c}) for c in core.chunks(items[:300], core.NPROC)], 1, into=t)
+    from .. import forest
+
+    pool = core.Pool(0)
+    hist = []
+    try:
+        for kind, n in (("mixin", 3), ("light", 3), ("node", 4)) + ((("mixin", 4), ("light", 4)) if tier == "thorough" else ()):
+            states = forest.discover(pool, kind, n, {"read": False, "nonnode": False, "extras": False}, False)
+            before = t.c["primed_histories"]
+            pool.run([(MOD, "job_primed", {"kind": kind, "n": n, "states": s_}) for s_ in core.shard(states, core.NPROC * 4)], into=t)
+            hist.append({"class": kind, "N": n, "forest_states": len(states), "histories": t.c["primed_histories"] - before})
+    finally:
+        pool.close()
     cov = {
         "states": t.c["states"], "transitions": t.c["evaluations"], "traces_validated_against_impl": t.c["evaluations"],
         "evaluations": t.c["evaluations"], "distinct_nontrivial": t.c["nontrivial"],
         "rule": "all ordered trees up to %d nodes (%d) and all forests of 2-3 trees up to %d nodes x 4 classes x every "
                 "ordered (start, end) pair; expected path from independently computed ancestor chains, plus adjacency "
-                "and mirror law; non-trivial = start != end" % (nmax, nshapes, fmax),
-        "bounds": {"max_nodes": nmax, "forest_nodes": fmax, "inputs": len(items)},
+                "and mirror law; plus, from every reachable forest of 3-4 labelled nodes: every subset of nodes asked for path/walk "
+                "first, one mutation, then one walk in isolation (stale-cache histories); non-trivial = start != end" % (nmax, nshapes, fmax),
+        "bounds": {"max_nodes": nmax, "forest_nodes": fmax, "inputs": len(items), "partially_primed_histories": hist},
     }
-    return {"tally": t, "coverage": cov, "guards": ("nontrivial", "different_trees", "up_and_down"),
+    return {"tally": t, "coverage": cov, "guards": ("nontrivial", "different_trees", "up_and_down", "primed_histories"),
             "assumptions": ["bounded tree sizes"]}
